@@ -695,6 +695,16 @@ func runEngine(c *ctx) {
 			c.engineCase(a, b, d, engineOpts{file: i%4 == 0, fk: i%2 == 0, withModel: true, rows: rows, fill: &fill})
 		}
 	}
+	// constraint / index names outside \w+ on every named object (gen.go oddName): inspect sees such checks and keys as anonymous
+	og := &G{r: c.r, odd: true}
+	no := 120
+	if c.thorough {
+		no = 2000
+	}
+	for i := 0; i < no; i++ {
+		a, b, d := og.pair()
+		c.engineCase(a, b, "odd-names:"+d, engineOpts{file: i%4 == 0, fk: i%2 == 0, withModel: true, viaAtlas: i%3 == 0})
+	}
 	for i := 0; i < n; i++ {
 		a, b, d := c.g.pair()
 		o := engineOpts{file: c.r.Chance(1, 3), fk: c.r.Bool(), withModel: true, viaAtlas: c.r.Chance(1, 3)}
@@ -782,6 +792,22 @@ func runOracle(c *ctx) {
 			o.rows = append(o.rows, genRows(c.g, t)...)
 		}
 		c.engineCase(a, b, "border:"+kind+"+rows", o)
+	}
+	// constraint / index names outside \w+ on every named object, empty and populated, created by the harness' DDL or by Atlas
+	og := &G{r: c.r, odd: true}
+	no := 150
+	if c.thorough {
+		no = 4000
+	}
+	for i := 0; i < no; i++ {
+		a, b, d := og.pair()
+		o := engineOpts{file: i%3 == 0, fk: i%2 == 0, viaAtlas: i%4 == 1, inspected: i%5 == 2}
+		if i%3 == 1 && d != "unrelated" {
+			for _, t := range a.Tables {
+				o.rows = append(o.rows, genRows(og, t)...)
+			}
+		}
+		c.engineCase(a, b, "odd-names:"+d, o)
 	}
 	// populated: a nullable column with a DEFAULT becomes NOT NULL over NULLs, all four variants, any default (notnull.go)
 	nn := 60
